@@ -354,3 +354,28 @@ func sideCondRule(c *core.Check, r *core.Rule, pkg string, files map[string]bool
 		r.Unknown("box-edge conditions in "+pkg, "-", fmt.Sprintf("%d conditions found, %d on the tree this rule was written for", len(conds), floor))
 	}
 }
+
+// extremumRule registers one obligation per running minimum / maximum update.
+func extremumRule(c *core.Check, r *core.Rule, pkg string, floor int) {
+	p := c.Prog
+	ups := p.ExtremumUpdates(pkg, nil)
+	seen := map[string]int{}
+	for _, u := range ups {
+		txt := u.Text
+		if len(txt) > 120 {
+			txt = txt[:120] + "…"
+		}
+		key := pkg + "." + u.Func + " | " + txt
+		seen[key]++
+		if seen[key] > 1 {
+			key = fmt.Sprintf("%s #%d", key, seen[key])
+		}
+		if os.Getenv("WRVERIF_DEBUG_EXTREMUM") != "" {
+			fmt.Fprintln(os.Stderr, "extremum:", p.Pos(u.Stmt.Pos()), u.Consistent, "|", txt)
+		}
+		r.Cond(u.Consistent, key, p.Pos(u.Stmt.Pos()), "compared with the variable it updates", fmt.Sprintf("the value is compared with %s but stored into %s: the running extremum is overwritten instead of extended", u.Compared, u.Updated))
+	}
+	if len(ups) < floor*2/3 {
+		r.Unknown("running extremum updates in "+pkg, "-", fmt.Sprintf("%d found, %d on the tree this rule was written for", len(ups), floor))
+	}
+}
